@@ -4,6 +4,7 @@ package main
 // evaluated to SMT terms in a given symbolic state.
 
 import (
+	"regexp"
 	"fmt"
 	"go/ast"
 	"go/constant"
@@ -854,7 +855,13 @@ func (e *SpecEnv) evalCall(n *ast.CallExpr) (Val, error) {
 				e.fc.defs.PushBinder()
 				body, err = sub.underBinder(n.Args[3], id.Name == "forall")
 				if err == nil && id.Name == "forall" {
-					pats = e.fc.defs.binderPatterns(body, bn)
+					var outer []string
+					for _, v := range e.bound {
+						if strings.HasPrefix(v.T, "q.") {
+							outer = append(outer, v.T)
+						}
+					}
+					pats = e.fc.defs.binderPatterns(body, bn, outer...)
 				}
 				body = e.fc.defs.PopBinder(body)
 			} else {
@@ -1254,9 +1261,31 @@ func quantPatterns(body, bn string) string {
 	return strings.Join(quantPatternList(body, bn, nil), " ")
 }
 
+var boundNameRe = regexp.MustCompile(`q\.[A-Za-z0-9_.]+\$[0-9]+`)
+
+// mentionsOtherBound reports whether t names a bound variable other than the allowed ones
+// (the pattern's own variable and the binders that are still open around it).
+func mentionsOtherBound(t string, allowed []string) bool {
+	if !strings.Contains(t, "q.") {
+		return false
+	}
+	for _, m := range boundNameRe.FindAllString(t, -1) {
+		ok := false
+		for _, a := range allowed {
+			if a == m {
+				ok = true
+			}
+		}
+		if !ok {
+			return true
+		}
+	}
+	return false
+}
+
 // binderPatterns looks for pattern terms in the body and in the let-bindings of the
 // innermost open binder; let-bound names inside a pattern are expanded.
-func (d *Defs) binderPatterns(body, bn string) string {
+func (d *Defs) binderPatterns(body, bn string, outer ...string) string {
 	texts := []string{body}
 	if len(d.lets) > 0 {
 		for _, l := range d.lets[len(d.lets)-1] {
@@ -1266,8 +1295,8 @@ func (d *Defs) binderPatterns(body, bn string) string {
 	seen := map[string]bool{}
 	var out []string
 	for _, t := range texts {
-		for _, p := range quantPatternList(t, bn, d) {
-			if !seen[p] && !strings.Contains(p, "l$") && len(p) < 2000 {
+		for _, p := range quantPatternList(t, bn, d, outer...) {
+			if !seen[p] && !letNameRe.MatchString(p) && len(p) < 2000 {
 				seen[p] = true
 				out = append(out, p)
 			}
@@ -1279,7 +1308,10 @@ func (d *Defs) binderPatterns(body, bn string) string {
 	return strings.Join(out, " ")
 }
 
-func quantPatternList(body, bn string, d *Defs) []string {
+// letNameRe matches an unexpanded binder-local let name (l$12) as a whole token.
+var letNameRe = regexp.MustCompile(`(^|[ (])l\$[0-9]+`)
+
+func quantPatternList(body, bn string, d *Defs, outer ...string) []string {
 	seen := map[string]bool{}
 	var pats []string
 	for _, head := range []string{"(sl.ix ", "(s.ix ", "(select "} {
@@ -1302,13 +1334,13 @@ func quantPatternList(body, bn string, d *Defs) []string {
 				continue
 			}
 			arg1 := body[j:arg1End]
-			if strings.Contains(arg1, "q.") { // mentions (possibly another) bound variable
+			if mentionsOtherBound(arg1, outer) { // mentions a bound variable that is not in scope
 				continue
 			}
 			term := body[start : arg1End+1+len(bn)+1]
 			if d != nil {
 				term = d.expandLets(term)
-				if strings.Contains(term, "q.") && strings.Count(term, "q.") > strings.Count(term, bn) {
+				if mentionsOtherBound(term, append([]string{bn}, outer...)) {
 					continue
 				}
 			}
